@@ -11,12 +11,14 @@ def case(rng):
     pkgs = []
     for i in range(n):
         if pkgs and r.random() < 0.4:
-            key = (r.choice(pkgs), 'm%d' % i)
+            key = r.choice(pkgs) + ('m%d' % i,)
         elif r.random() < 0.3:
-            pk = 'p%d' % i
+            # packages nest: p1/p3/m4.lay is imported as self.p1.p3.m4 and runs p1, p1.p3, p1.p3.m4 in that order
+            parent = r.choice(pkgs) if pkgs and r.random() < 0.5 and len(pkgs[-1]) < 3 else ()
+            pk = parent + ('p%d' % i,)
             pkgs.append(pk)
-            mods.append({'key': (pk,), 'i': 1000 + i, 'pkg': True})
-            key = (pk, 'm%d' % i)
+            mods.append({'key': pk, 'i': 1000 + i, 'pkg': True})
+            key = pk + ('m%d' % i,)
         else:
             key = ('m%d' % i,)
         mods.append({'key': key, 'i': i, 'pkg': False})
